@@ -3,9 +3,17 @@
    operators of CifText and Containers.  TRACE_FILE is a JSON array of traces; a trace is an
    array of events of one kind:
 
-   kind = "text":  {kind, F, obs, txt}     F a file (see CifText), obs = [oc, f] what
-                   CIFFile.deserialize(CIFFile(F).serialize()) returned, txt the text biotite wrote.
+   kind = "text":  {kind, F, raw, before, obs, txt}     F a file (see CifText), raw the columns as they
+                   were handed to the library (CifText: RawCol - form, texts, explicit mask or none),
+                   before the table the built object held, obs = [oc, f] what
+                   CIFFile.deserialize(file.serialize()) returned, txt the text biotite wrote.
                    Events are independent of each other.
+   kind = "pair":  {kind, left, right, bn, cn, lrd, rrd, eqs}   two texts (written by a randomising
+                   writer, any layout), what the real reader made of each (everything accessed), and
+                   eqs = <<[level, al, ar, got]>>: the answers of `==` / `!=` between the two freshly
+                   parsed files at file / block bn / category cn level after the prior accesses al, ar.
+                   Judged against what the READER MODEL makes of the two texts (EqLevels); if the real
+                   reader made something else of a text the event is a diagnostic (READDIFF) only.
    kind = "map":   {kind, fl, pb, pc, op, a, oc, out, abs, ser}   one mapping call on a container of
                    flavour fl (history starts with an empty file); abs is the content after the
                    call, out the returned value, ser = [oc, abs] what writing and re-reading an
@@ -17,7 +25,10 @@
                    the implementation-shaped model / ApplyKB predicts
      <<"NOTDOM", tid, i>>        the generator left the domain (machinery failure)
      <<"TEXTDIFF", tid, i>>      diagnostic: biotite's text differs from the writer model
-     <<"KBMISS", tid, i, kb>>    diagnostic: a recorded defect did not show *)
+     <<"KBMISS", tid, i, kb>>    diagnostic: a recorded defect did not show
+     <<"READDIFF", tid, i>>      diagnostic: the real reader and the reader model disagree on a text that
+                                 biotite did not write
+     <<"PAIRS", tid, i, n>>      n answers of a pair event were judged *)
 EXTENDS CifText, Containers, Json, IOUtils
 
 Tr == JsonDeserialize(IOEnv.TRACE_FILE)
@@ -29,12 +40,29 @@ tvars == <<tid, l, S>>
 JudgeText(e, i) ==
   LET ideal == IdealRoundTrip(e.F)
       kbs   == KB_File(e.F)
-  IN /\ (IF Dom_File(e.F) THEN TRUE ELSE PrintT(<<"NOTDOM", tid, i>>))
+      rawok == /\ StoredFile(e.raw) = e.F
+               /\ \A k \in DOMAIN e.raw : \A q \in DOMAIN e.raw[k].cats : \A j \in DOMAIN e.raw[k].cats[q].cols :
+                     Dom_Raw(e.raw[k].cats[q].cols[j])
+  IN /\ (IF Dom_File(e.F) /\ rawok THEN TRUE ELSE PrintT(<<"NOTDOM", tid, i>>))
      /\ (IF e.txt = ImplSerializeFile(e.F) THEN TRUE ELSE PrintT(<<"TEXTDIFF", tid, i>>))
+     \* the table the object holds before it is written: whatever the form, the stored table is F
+     /\ (IF e.before = e.F THEN TRUE ELSE PrintT(<<"MISMATCH", tid, i, "unknown", {}, "before">>))
      /\ IF e.obs = ideal
         THEN (IF kbs = {} THEN TRUE ELSE PrintT(<<"KBMISS", tid, i, kbs>>))
         ELSE LET impl == ImplRoundTrip(e.F) IN
              PrintT(<<"MISMATCH", tid, i, IF kbs # {} /\ e.obs = impl THEN "known" ELSE "unknown", kbs, impl.oc>>)
+
+(* ---------------------------------------------------------------- pair events *)
+JudgePair(e, i) ==
+  LET a == ImplReadFile(e.left)
+      b == ImplReadFile(e.right)
+      lv == EqLevels(a, b, e.bn, e.cn)
+      exp(level) == CASE level = "file" -> lv.file [] level = "block" -> lv.block [] level = "cat" -> lv.cat
+      judged == {n \in DOMAIN e.eqs : exp(e.eqs[n].level) # "na"}
+      wrong  == {n \in judged : e.eqs[n].got # <<exp(e.eqs[n].level)>>}
+  IN IF a # e.lrd \/ b # e.rrd THEN PrintT(<<"READDIFF", tid, i>>)
+     ELSE /\ PrintT(<<"PAIRS", tid, i, Cardinality(judged)>>)
+          /\ \A n \in wrong : PrintT(<<"MISMATCH", tid, i, "unknown", {}, "pair", n, exp(e.eqs[n].level)>>)
 
 (* ---------------------------------------------------------------- mapping events *)
 OutMatches(op, exp, got) ==
@@ -64,6 +92,7 @@ Next == /\ l < Len(Tr[tid])
         /\ UNCHANGED tid
         /\ LET e == Tr[tid][l + 1] IN
            IF e.kind = "text" THEN JudgeText(e, l + 1) /\ UNCHANGED S
+           ELSE IF e.kind = "pair" THEN JudgePair(e, l + 1) /\ UNCHANGED S
            ELSE MapStep(e, l + 1)
 
 Spec == Init /\ [][Next]_tvars
